@@ -20,8 +20,23 @@ SCOPES = {
 
 def rejections(model, scope):
     out = {}
-    for f in model.functions():
-        if f.module.external or not f.module.relpath.startswith(SCOPES[scope]) or not f.name.lstrip('_').startswith('parse'):
+    in_scope = [f for f in model.functions() if not f.module.external and f.module.relpath.startswith(SCOPES[scope])]
+    # the parse functions, and the helper methods they (transitively) call through cls / self whatever their name
+    selected = {id(f): f for f in in_scope if f.name.lstrip('_').startswith('parse')}
+    work = list(selected.values())
+    while work:
+        g = work.pop()
+        if g.cls is None:
+            continue
+        for n in ast.walk(g.node):
+            if isinstance(n, ast.Call) and isinstance(n.func, ast.Attribute) and isinstance(n.func.value, ast.Name) and n.func.value.id in ('cls', 'self'):
+                h = g.cls.resolve(n.func.attr)
+                if h is not None and not h.module.external and id(h) not in selected and h.module.relpath.startswith(SCOPES[scope]) and \
+                        not h.name.startswith('compose') and not h.name.startswith('_compose') and h.name not in ('__init__', '__attrs_post_init__'):
+                    selected[id(h)] = h
+                    work.append(h)
+    for f in in_scope:
+        if id(f) not in selected:
             continue
         parents = {}
         for n in ast.walk(f.node):
